@@ -696,6 +696,9 @@ func checkC06(w *World, r *Report) {
 		}
 		r.Check(okX, "C06.R1", fname(pr.restartFn)+":exhausted-edge", "at the budget: ActorMaxRestartsExceededEvent, then the stop function, never Start", w.fnPos(pr.restartFn), detail)
 	}
+	r.Rule("C06.R5", "the configured budget is the one used (WithMaxRestarts stores n for every n); the process keeps its Context (children) across restarts", 2)
+	checkMaxRestartsOpt(w, r, "C06.R5")
+	checkContextFixed(w, r, "C06.R5")
 	pr.lta.export(r, "C06.R2", []string{"nil-func-call"}, "no nil function value is called")
 	checkStopFn(w, r, pr, "C06.R3")
 	checkChildrenRegion(w, r, pr, "C06.R3")
@@ -1010,6 +1013,7 @@ func checkC07(w *World, r *Report) {
 		}
 	}
 
+	checkCancelDeferred(w, r, "C07.R2")
 	// R3
 	{
 		g := w.FG(pr.invoke)
